@@ -59,7 +59,9 @@ class GridInterpolationVariationalStrategy(_VariationalStrategy):
         batch_shape = inputs.shape[:-2]
 
         inputs = inputs.reshape(-1, n_dimensions)
-        interp_indices, interp_values = Interpolation().interpolate(self.grid, inputs)
+        # Interpolation.interpolate numbers the grid nodes with its first dimension slowest, whereas the inducing
+        # points above are enumerated with the first dimension fastest: hand the dimensions over in reverse order
+        interp_indices, interp_values = Interpolation().interpolate(self.grid.flip(-1), inputs.flip(-1))
         interp_indices = interp_indices.view(*batch_shape, n_data, -1)
         interp_values = interp_values.view(*batch_shape, n_data, -1)
 
